@@ -61,15 +61,13 @@ impl Filter for JoinFilter {
     }
 }
 
-fn nil_safe_compare(a: &dyn ValueView, b: &dyn ValueView) -> Option<cmp::Ordering> {
-    if a.is_nil() && b.is_nil() {
-        Some(cmp::Ordering::Equal)
-    } else if a.is_nil() {
-        Some(cmp::Ordering::Greater)
-    } else if b.is_nil() {
-        Some(cmp::Ordering::Less)
-    } else {
-        ValueViewCmp::new(a).partial_cmp(&ValueViewCmp::new(b))
+/// Total order for sorting: `nil`s last, everything else by `sort_order`.
+fn sort_compare(a: &dyn ValueView, b: &dyn ValueView) -> cmp::Ordering {
+    match (a.is_nil(), b.is_nil()) {
+        (true, true) => cmp::Ordering::Equal,
+        (true, false) => cmp::Ordering::Greater,
+        (false, true) => cmp::Ordering::Less,
+        (false, false) => crate::sort_order(a, b),
     }
 }
 
@@ -132,14 +130,13 @@ impl Filter for SortFilter {
         if let Some(property) = &args.property {
             // Using unwrap is ok since all of the elements are objects
             sorted.sort_by(|a, b| {
-                nil_safe_compare(
+                sort_compare(
                     safe_property_getter(a, property),
                     safe_property_getter(b, property),
                 )
-                .unwrap_or(cmp::Ordering::Equal)
             });
         } else {
-            sorted.sort_by(|a, b| nil_safe_compare(a, b).unwrap_or(cmp::Ordering::Equal));
+            sorted.sort_by(|a, b| sort_compare(a, b));
         }
         Ok(Value::array(sorted))
     }
